@@ -298,7 +298,9 @@ func (v *FnVC) loadAddr(st *State, a *Addr) Val {
 			unsupported("load of a whole struct through a pointer")
 		}
 		h := v.heap(st, a.Heap, ArrSort(sortOf(a.Typ)))
-		return Val{T: Select(h, a.Ref), Typ: a.Typ}
+		r := Select(h, a.Ref)
+		v.noteEntryLoad(h, r)
+		return Val{T: r, Typ: a.Typ}
 	case "global":
 		obj := v.fn.Pkg.Pkg.Scope().Lookup(a.Key)
 		gv, ok := obj.(*types.Var)
@@ -442,6 +444,11 @@ func (v *FnVC) execInstr(in ssa.Instruction, st *State) {
 		v.execCall(in, st)
 	case *ssa.MakeInterface:
 		x := v.value(in.X, st)
+		if _, isPtr := in.X.Type().Underlying().(*types.Pointer); isPtr && x.T != nil {
+			// an interface holding a pointer is represented by the pointer itself
+			v.regs[in] = Val{T: x.T, Typ: in.Type(), Tuple: []Val{x}}
+			return
+		}
 		// opaque non-nil interface value; remember the dynamic value when scalar
 		t := v.fresh("iface", SInt)
 		v.assume(v.curGuard, Ge(t, IntLit(1)), "iface")
@@ -550,8 +557,19 @@ func (v *FnVC) execUnOp(in *ssa.UnOp, st *State) {
 		} else {
 			pt := in.X.Type().Underlying().(*types.Pointer)
 			v.nilCheck(x.T, in.Pos())
-			if _, ok := pt.Elem().Underlying().(*types.Struct); ok {
-				unsupported("whole-struct load through pointer at %s", v.posOf(in.Pos()))
+			if stt, ok := pt.Elem().Underlying().(*types.Struct); ok {
+				if !flatStruct(pt.Elem()) {
+					unsupported("whole-struct load through pointer at %s", v.posOf(in.Pos()))
+				}
+				fields := map[string]Val{}
+				for k := 0; k < stt.NumFields(); k++ {
+					f := stt.Field(k)
+					fv := v.loadAddr(st, &Addr{Kind: "field", Heap: fieldHeap(pt.Elem(), f.Name()), Ref: x.T, Typ: f.Type()})
+					v.assume(v.curGuard, v.typeInv(fv.T, f.Type(), st), "type")
+					fields[f.Name()] = fv
+				}
+				v.regs[in] = Val{Typ: in.Type(), Fields: fields}
+				return
 			}
 			r = v.loadAddr(st, &Addr{Kind: "cell", Heap: cellHeap(pt.Elem()), Ref: x.T, Typ: pt.Elem()})
 			v.assume(v.curGuard, v.typeInv(r.T, r.Typ, st), "type")
@@ -655,10 +673,21 @@ func (v *FnVC) execBinOp(in *ssa.BinOp, st *State) Val {
 		unsupported("binary %s on %s", in.Op, typ)
 	}
 	switch in.Op {
-	case token.ADD:
-		return Val{T: v.arith(Add(x.T, y.T), ii, in.Pos(), "addition"), Typ: typ}
-	case token.SUB:
-		return Val{T: v.arith(Sub(x.T, y.T), ii, in.Pos(), "subtraction"), Typ: typ}
+	case token.ADD, token.SUB:
+		r := Add(x.T, y.T)
+		if in.Op == token.SUB {
+			r = Sub(x.T, y.T)
+		}
+		if ii.signed && v.isWrapCounter(in.X) {
+			// cached counters named in `opt wrapcounters=`: modelled with wrap-around, no claim made
+			half := BigLit(pow2big(ii.bits - 1))
+			return Val{T: v.define("w", Sub(EMod(Add(r, half), BigLit(pow2big(ii.bits))), half)), Typ: typ}
+		}
+		what := "addition"
+		if in.Op == token.SUB {
+			what = "subtraction"
+		}
+		return Val{T: v.arith(r, ii, in.Pos(), what), Typ: typ}
 	case token.MUL:
 		return Val{T: v.arith(Mul(x.T, y.T), ii, in.Pos(), "multiplication"), Typ: typ}
 	case token.QUO, token.REM:
@@ -1749,4 +1778,37 @@ func (v *FnVC) loopFrameCheck(heap string, ref *Term, skip *Term, pos token.Pos)
 		v.oblige("frame", fmt.Sprintf("loop-frame#%d@%s", v.ord("lframe"), v.loopName(l)), v.curGuard, Or(alts...), v.posOf(pos),
 			"store inside the loop targets one of the loop's own arrays or memory allocated since loop entry")
 	}
+}
+
+// isWrapCounter: x is a load of a location whose name is listed in `opt wrapcounters=`.
+func (v *FnVC) isWrapCounter(x ssa.Value) bool {
+	if v.spec == nil || v.spec.Opts["wrapcounters"] == "" {
+		return false
+	}
+	names := map[string]bool{}
+	for _, n := range strings.Split(v.spec.Opts["wrapcounters"], ",") {
+		names[strings.TrimSpace(n)] = true
+	}
+	var nameOfAddr func(a ssa.Value, depth int) bool
+	nameOfAddr = func(a ssa.Value, depth int) bool {
+		if depth > 4 {
+			return false
+		}
+		switch a := a.(type) {
+		case *ssa.Alloc:
+			return names[a.Comment]
+		case *ssa.FieldAddr:
+			st := a.X.Type().Underlying().(*types.Pointer).Elem().Underlying().(*types.Struct)
+			return names[st.Field(a.Field).Name()]
+		case *ssa.IndexAddr:
+			if l, ok := a.X.(*ssa.UnOp); ok && l.Op == token.MUL {
+				return nameOfAddr(l.X, depth+1)
+			}
+		}
+		return false
+	}
+	if l, ok := x.(*ssa.UnOp); ok && l.Op == token.MUL {
+		return nameOfAddr(l.X, 0)
+	}
+	return false
 }
